@@ -27,6 +27,8 @@ package mcp
 //@ type lifecycleManager
 //@   ctor newLifecycleManager, withProtocolVersion, withSupportedVersions
 //@   final[C16] supportedVersions, defaultProtocolVersion
+//@   final[C06,C20] sessionStates
+//@   invariant self.sessionStates != nil
 //@   invariant[C16 default-version-is-supported] inslice(self.supportedVersions, self.defaultProtocolVersion)
 //@
 //@ func lifecycleManager.withProtocolVersion
@@ -43,14 +45,20 @@ package mcp
 //@   loop 1 invariant[C16] 0 - 1 <= rangeindex && rangeindex < len(m.supportedVersions)
 //@
 //@ type promptManager
+//@   ctor newPromptManager
 //@   guarded[C12,C20] prompts, promptsOrder by mu
+//@   final[C06,C12,C20] prompts
+//@   invariant self.prompts != nil
 //@ func promptManager.getPrompts
 //@   pure
 //@   loop 1 invariant[C16,C12] len(prompts) == yielded(1)
 //@   ensures[C16,C12 one-entry-per-registered-prompt] len(result) == len(m.prompts)
 //@
 //@ type resourceManager
+//@   ctor newResourceManager
 //@   guarded[C12,C20] resources, resourcesOrder, templates by mu
+//@   final[C06,C12,C20] resources, templates, subscribers
+//@   invariant self.resources != nil && self.templates != nil && self.subscribers != nil
 //@   invariant[C16,C12 every-ordered-uri-is-registered] forall i int :: 0 <= i && i < len(self.resourcesOrder) ==> self.resourcesOrder[i] in self.resources
 //@ func resourceManager.getResources
 //@   pure
@@ -229,3 +237,44 @@ package mcp
 //@   before call wrappedHandler#1 assert[C15 whole-chain-around-the-core] wrappedHandler == chain(h.middlewares, coreHandler, 0)
 //@   ensures[C15 chain-invoked-exactly-once] len(old(h.middlewares)) > 0 ==> chaincalls == old(chaincalls) + 1
 //@   ensures[C15 direct-dispatch-without-middlewares] len(old(h.middlewares)) == 0 ==> dispatches == old(dispatches) + 1
+
+// ---------------------------------------------------------------------------
+// C06 / C07 — zero-annotation safety sweeps.  Every function declared in the
+// listed files is translated; each single-result type assertion, close of a
+// channel, send on a channel, write to a map entry and explicit panic in them
+// is an obligation (the values that come out of encoding/json are
+// unconstrained dynamic types, so "any JSON type in any field" is decided for
+// the whole type lattice at once).
+
+//@ sweepscope[C06] kinds=typeassert,close,nilmap files=streamable_server.go,sse_server.go,stdio_server.go,handler.go,manager_tools.go,manager_prompt.go,manager_resource.go,manager_lifecycle.go,jsonrpc.go,mcp_types.go,responder_json.go,responder_sse.go,responder.go,session.go,server.go,notifier.go,mcp_notification.go,internal/session/session.go
+//@ sweepscope[C07] kinds=typeassert,close,nilmap files=streamable_client.go,sse_client.go,transport_stdio.go,client.go,stdio_client.go,utils_json.go,mcp_tools.go,mcp_prompts.go,mcp_resources.go,transport_http.go
+
+// Maps that are created by the constructor and never reassigned: final fields,
+// non-nil by type invariant (assumed for objects built by their constructors;
+// proved for the constructors that take no option callbacks).
+//@ type Server
+//@   final[C06,C12,C20] notificationHandlers
+//@   invariant self.notificationHandlers != nil
+//@ type SSEServer
+//@   final[C06,C12,C20] notificationHandlers
+//@   invariant self.notificationHandlers != nil
+//@ type toolManager
+//@   ctor newToolManager
+//@   final[C06,C12,C20] tools
+//@   invariant self.tools != nil
+//@ type responseManager
+//@   ctor newResponseManager
+//@   final[C06,C05,C20] pendingRequests
+//@   invariant self.pendingRequests != nil
+//@ type httpServerHandler
+//@   final[C06,C11,C20] getSSEConnections
+//@   invariant self.getSSEConnections != nil
+
+// Server-issued requests are built by the library itself with int64 ids (ListRoots); a caller of the
+// exported SendRequest must do the same.
+//@ func SSEServer.SendRequest
+//@   requires[C06] istype(request.ID, int64)
+//@ func StdioServer.SendRequest
+//@   requires[C06] istype(request.ID, int64)
+//@ func resourceManager.unsubscribe
+//@   requires[C06] !closed(ch)
